@@ -59,7 +59,9 @@ func (m *rlMesh) fileContent(name string) (string, bool) {
 	cs := ctl.Item{"control-service": map[string]any{"service": "control", "filename": m.a.Sock}}
 	L := ctl.Item{"tcp-listener": map[string]any{"port": m.pa, "bindaddr": "127.0.0.1"}}
 	D := ctl.Item{"tcp-peer": map[string]any{"address": fmt.Sprintf("127.0.0.1:%d", m.pb), "cost": 1.0}}
-	Dc := ctl.Item{"tcp-peer": map[string]any{"address": fmt.Sprintf("127.0.0.1:%d", m.pb), "cost": 2.5}}
+	// "Dc": the same dialer with other attributes (a changed cost would have to be changed on the peer too, or the
+	// two nodes refuse each other)
+	Dc := ctl.Item{"tcp-peer": map[string]any{"address": fmt.Sprintf("127.0.0.1:%d", m.pb), "cost": 1.0, "allowedpeers": []string{"rb"}}}
 	Dbad := ctl.Item{"tcp-peer": map[string]any{"address": fmt.Sprintf("127.0.0.1:%d", m.pb), "cost": -1.0}}
 	E := ctl.Item{"tcp-peer": map[string]any{"address": fmt.Sprintf("127.0.0.1:%d", m.pd)}}
 	Efail := ctl.Item{"tcp-peer": map[string]any{"address": "address-without-a-port"}}
@@ -476,6 +478,15 @@ func runReloadScenario(sc rlScen, dir, bin, vrd string, seed int64) *rlResult {
 
 			return res
 		}
+		for _, r := range replies {
+			if strings.Contains(r.l, "address already in use") && strings.Contains(r.l, fmt.Sprint(m.pa)) {
+				// the file gives no reason: the port of a's own listener was still bound when the new listener was started
+				res.violate("X-RELOAD:listener-port-still-bound-after-backend-wait",
+					fmt.Sprintf("reload of file %s (mode %s): %s - BackendWait returned before the old listener's socket was closed", name, sc.Mode, strings.TrimSpace(r.l)), nil)
+
+				return res
+			}
+		}
 		var classes []string
 		for _, r := range replies {
 			if r.err != nil {
@@ -530,6 +541,11 @@ func runReloadScenario(sc rlScen, dir, bin, vrd string, seed int64) *rlResult {
 				res.violate("X-RELOAD:refused-reload-stopped-a-backend-"+name, fmt.Sprintf("the reload of file %s was refused (%s) but the trace has %s", name, exp.Reply, e), nil)
 			}
 		}
+		if sc.Mode == "storm" && i < len(sc.Edits)-1 {
+			cur = want
+
+			continue // the next reload follows at once
+		}
 		have, ok := m.waitConns(want, 50*time.Second)
 		step["connections_settled"] = have
 		if !ok {
@@ -538,8 +554,18 @@ func runReloadScenario(sc rlScen, dir, bin, vrd string, seed int64) *rlResult {
 			return res
 		}
 		if exp.Reply == "success" && containsStr(exp.Run, "Dc") {
-			if c, _ := m.conns(10 * time.Second); c["rb"] != 2.5 {
-				res.violate("X-RELOAD:new-cost-not-in-effect", fmt.Sprintf("after the accepted reload the connection to rb has cost %v, the file says 2.5", c["rb"]), nil)
+			// the changed entry is what runs now: the session to rb was started by a backend with the new attributes
+			more, noff := m.traceEvents(off)
+			off = noff
+			res.trace = append(res.trace, more...)
+			found := false
+			for _, e := range append(evs, more...) {
+				if e["ev"] == "sess_start" && strings.Contains(fmt.Sprint(e["allow"]), "rb") {
+					found = true
+				}
+			}
+			if !found {
+				res.violate("X-RELOAD:changed-backend-entry-not-in-effect", "after the accepted reload no session was started by a backend with the attributes of the changed entry (allowedpeers rb)", nil)
 			}
 		}
 		cur = want
@@ -592,6 +618,8 @@ func pickReloadScenarios(all []rlScen, seed int64, max int) []rlScen {
 		case s.Mode == "overlap" && (s.Edits[0] == "start" || s.Edits[0] == "cost_D" || s.Edits[0] == "mod_B"):
 			must = append(must, s)
 		case s.Mode == "probes" && (s.Edits[0] == "start" || s.Edits[0] == "drop_L"):
+			must = append(must, s)
+		case s.Mode == "storm":
 			must = append(must, s)
 		default:
 			rest = append(rest, s)
